@@ -76,7 +76,9 @@ impl Octree {
     ) -> Option<Self> {
         let shape = b.shape();
         let vars = b.vars();
-        if let Some(threads) = settings.threads {
+        // A depth-0 octree is a single cell, so there is nothing to distribute
+        // (and the multithreaded builder needs at least one subdivision)
+        if let Some(threads) = settings.threads.filter(|_| settings.depth > 0) {
             Self::build_inner_mt(shape, settings, vars, threads)
         } else {
             let mut eval = RenderHandle::new(shape.clone());
